@@ -262,6 +262,7 @@ def sortPairs (l : List (Nat × Nat)) : List (Nat × Nat) := l.foldr insSorted [
 
 def showH3Err : Err → String
   | .eof => "err:eof"
+  | .unexpectedEOF => "err:ueof"
   | .reserved t => s!"err:reserved:{t}"
   | .settingsTooLarge => "err:settings-size"
   | .duplicateSetting _ => "err:dup"
